@@ -110,9 +110,24 @@ class FakeManager:
         self.lost += 1
         self.w.sim.ev("l2_lost", self.name)
 
+    # a consumer that applies back-pressure: pauses the L2 connection from
+    # inside record delivery (as Inbound does when a subchannel's
+    # application pauses), resumed later by a scheduler event
+    pause_now = None
+    paused = False
+
     def got_record(self, r):
         self.records.append(r)
         self.w.sim.ev("record", self.name, type(r).__name__)
+        if self.pause_now is not None and not self.paused and \
+                self.conn is not None and self.pause_now():
+            self.paused = True
+            self.conn.pauseProducing()
+
+    def resume(self):
+        self.paused = False
+        self.w.sim.ev("l2_resume", self.name)
+        self.conn.resumeProducing()
 
 
 class World:
@@ -541,11 +556,27 @@ def run_one(seed, tape, opts):
         sent = {"l2f": len(early["l2f"]), "f2l": len(early["f2l"])}
         conns = {"l2f": ML.conn, "f2l": MF.conn}
 
+        slow = not opts.get("fixed") and tape.choose(3, "slow_mgr") == 0
+        pause_budget = [5]
+
+        def pause_now():
+            if not slow or pause_budget[0] <= 0 or \
+                    tape.choose(3, "pause?") != 0:
+                return False
+            pause_budget[0] -= 1
+            sim.note("probe.manager_paused_l2_connection")
+            return True
+        if slow:
+            ML.pause_now = MF.pause_now = pause_now
+
         def app_events():
             evs = []
             for d in ("l2f", "f2l"):
                 if sent[d] < len(recs[d]):
                     evs.append(("send:" + d, lambda d=d: send(d)))
+            for mg in (ML, MF):
+                if mg.paused:
+                    evs.append(("resume:" + mg.name, mg.resume))
             return evs
 
         def send(d):
@@ -576,8 +607,13 @@ def run_one(seed, tape, opts):
         sim.after_step = oracle
         sim.run(20000, until=lambda: bool(viol) or (
             all(sent[d] >= len(recs[d]) for d in sent) and
+            not ML.paused and not MF.paused and
             not any(len(e.inflight) for l in sim.net.links for e in l.ends)),
             max_time=100)
+        ML.pause_now = MF.pause_now = None
+        for mg in (ML, MF):
+            if mg.paused:
+                mg.resume()
         sim.run(500, max_time=5)
         oracle()
         if not viol:
